@@ -8,8 +8,10 @@ import (
 	"fmt"
 	"io"
 	"log"
+	"net/http/httptest"
 	"os"
 	"runtime"
+	"slices"
 	"sort"
 	"strings"
 	"sync"
@@ -74,6 +76,40 @@ type runner struct {
 	ix *vw.Indexed
 	ev *vw.Evaluator
 	wh uint64
+	nq int // queries so far (every third one is repeated over HTTP)
+}
+
+// httpQuery sends q the way the web UI and pkg/client do: as the JSON body of POST camli/search/query
+// to the handler's ServeHTTP (fields at their zero value are left out of the JSON).
+func (r *runner) httpQuery(q *search.SearchQuery) ([]string, error) {
+	body, err := json.Marshal(q)
+	if err != nil {
+		return nil, err
+	}
+	req := httptest.NewRequest("POST", "http://verif.invalid/my-search/camli/search/query", bytes.NewReader(body))
+	req.Header.Set("X-Prefixhandler-Pathsuffix", "camli/search/query") // httputil.PathSuffixHeader, set by the PrefixHandler in front of every handler
+	rec := httptest.NewRecorder()
+	r.ix.H.ServeHTTP(rec, req)
+	if rec.Code != 200 {
+		return nil, fmt.Errorf("HTTP %d %.200q", rec.Code, rec.Body.String())
+	}
+	var res struct {
+		Blobs []struct {
+			Blob string `json:"blob"`
+		} `json:"blobs"`
+		Error string `json:"error"`
+	}
+	if err := json.Unmarshal(rec.Body.Bytes(), &res); err != nil {
+		return nil, fmt.Errorf("response is not JSON: %v", err)
+	}
+	if res.Error != "" {
+		return nil, fmt.Errorf("error response: %s", res.Error)
+	}
+	out := make([]string, len(res.Blobs))
+	for i, b := range res.Blobs {
+		out[i] = b.Blob
+	}
+	return out, nil
 }
 
 type violation struct{ msg string }
@@ -133,7 +169,35 @@ func (r *runner) query(c *search.Constraint, wrapper string, st search.SortType,
 	for i, b := range res.Blobs {
 		out[i] = b.Blob.String()
 	}
+	// the HTTP entry point must give the answer of the query it was sent, whatever it served before
+	r.nq++
+	if r.nq%3 == 0 && st != search.MapSort {
+		evid.R.Label("transport/also-over-http")
+		hout, herr := r.httpQuery(q)
+		if herr != nil {
+			return nil, src, fmt.Errorf("the query succeeds in-process but fails over HTTP (POST camli/search/query): %v", herr)
+		}
+		// ties in the sort key may come back in any order: the same set if the query is unlimited, the same
+		// number of results otherwise (the order of every answer is judged separately, against the model)
+		same := len(hout) == len(out)
+		if same && limit < 0 {
+			a, b := slices.Clone(hout), slices.Clone(out)
+			slices.Sort(a)
+			slices.Sort(b)
+			same = slices.Equal(a, b)
+		}
+		if !same {
+			return nil, src, fmt.Errorf("over HTTP (POST camli/search/query, body %s) the answer is %d blobs %v, in-process it is %d blobs %v", qjson(q), len(hout), short(hout), len(out), short(out))
+		}
+	}
 	return out, src, nil
+}
+
+func short(l []string) []string {
+	if len(l) > 6 {
+		return append(append([]string{}, l[:6]...), "...")
+	}
+	return l
 }
 
 // queryWithDeadline is query for the map sort, whose pruning loop is the only
